@@ -11,7 +11,7 @@ CHECKS = {
     "C04": dict(
         level="exploration",
         text="For generated null-datamodel charts (parallel, history incl. nested, finals, internal/targetless/multi-target/eventless transitions, raise/send/cancel/log/if "
-             "content, In() conditions; a third parallel-biased with long repeated-event histories) ChartToC::transform runs in-process; the emitted text is compiled as C with "
+             "content, In() conditions, <donedata> on half of the nested finals; a third parallel-biased with long repeated-event histories) ChartToC::transform runs in-process; the emitted text is compiled as C with "
              "the sizing macros it emits (gcc -O0, ASan+UBSan) together with a host whose callbacks are backed by its own queues, and fed the external events in the order the "
              "interpreter dequeued them under the same timed history on the simulated clock. Compared record by record: events dequeued, log/raise/send/cancel content, done "
              "events, configurations, termination; any sanitizer report of the hosted machine is an out-of-bounds violation.",
@@ -46,7 +46,7 @@ CHECKS = {
              "history; its recorded behaviour (events processed, exits, transitions, content, logs, entries, configurations) must equal the original suffix; a snapshot of a "
              "different document must be rejected; both engines, three datamodels.",
         ref="DESIGN.md 6/C14",
-        note="snapshot points are sampled per run; downtime is zero; charts without invoke; the repeated stable-configuration notice of a resumed interpreter is not counted as a difference.",
+        note="snapshot points are sampled per run; downtime is zero; invocations: a thread-free harness invoker in 35% of the lua/promela charts (replies reveal the arguments a re-created invocation was given) and a scenario that snapshots a session whose invoked SCXML child rests (known finding); the repeated stable-configuration notice of a resumed interpreter is not counted as a difference.",
         technique=TECH + "crash-point (kill + restore) injection at macrostep boundaries of simulated runs, resumed-trace == original-suffix oracle"),
     "C15": dict(
         level="fault_enumeration",
@@ -125,7 +125,7 @@ CHECKS = {
              "life-cycle automaton over step() results, onexit handlers once in reverse document order at completion, cancel leads to FINISHED, teardown bounded "
              "(kernel deadlock / stuck rule), reset == fresh, no crash.",
         ref="DESIGN.md 6/C10",
-        note="purpose-built chart family (nested/parallel states, delayed sends, optional invoked child), both engines; libevent is the simevent model.",
+        note="purpose-built chart family (nested/parallel states, delayed sends, optional invoked child which may invoke a grandchild), both engines; libevent is the simevent model.",
         technique=TECH + "seeded schedule and API-call-point search with life-cycle automaton, bounded-teardown (deadlock/stuck) detection and reset-vs-fresh differential"),
     "C11": dict(
         level="exploration",
@@ -134,13 +134,13 @@ CHECKS = {
              "seeded scheduler; oracles: invoke/uninvoke exactly once per entry/exit, done.invoke at most once and only after the child's final state, done eventually "
              "at quiescence, silence after cancel, routing and order, finalize before matching, no deadlock/crash.",
         ref="DESIGN.md 6/C11",
-        note="one invoke element per parent chart; invoker flags change only between simulator decision points; libevent is the simevent model.",
+        note="one invoke element under test per parent chart (35% with a sibling invocation); invoker flags change only between simulator decision points; libevent is the simevent model.",
         technique=TECH + "seeded schedule search over parent, child and timer tasks with invoke-protocol oracles on the recorded histories of both sessions"),
     "C09": dict(
         level="exploration",
         text="Seeded search over interleavings of the real timer thread (BasicDelayedEventQueue on a simulated libevent) with the interpreter thread, "
              "with adversarial time advance, stalls and spurious wake-ups; oracles not-early, due-order, at-most-once, cancelled-never-delivered, "
-             "nothing lost at quiescence, plus kernel-detected deadlock / use-after-free / double-free / crash. Sampling, not proof.",
+             "nothing lost at quiescence (also across snapshots taken by serialize() while timers are pending, 12% of the plans), plus kernel-detected deadlock / use-after-free / double-free / crash. Sampling, not proof.",
         ref="DESIGN.md 6/C09",
         note="libevent is a model of its timer subset (simevent); pre-emption only at synchronisation and simevent entry points; scheduler and clock are simulated.",
         technique=TECH + "seeded schedule search of timer task vs interpreter task over simulated libevent and clock; history oracles + kernel deadlock/UAF detection"),
